@@ -125,7 +125,12 @@ def invariant(t, seen, what, phase=0):
         def f():
             ids = obs if axis == "observation" else samp
             for k, i in enumerate(ids):
-                v = t.data(i, axis=axis)
+                # the dense and the sparse form of the same accessor
+                if (phase + k) % 3 == 2:
+                    v = np.asarray(t.data(i, axis=axis,
+                                          dense=False).toarray()).ravel()
+                else:
+                    v = t.data(i, axis=axis)
                 want = D[k, :] if axis == "observation" else D[:, k]
                 if v.tolist() != want.tolist():
                     bad("data", "data(%r, %s)=%r, matrix vector %r" %
@@ -154,13 +159,24 @@ def invariant(t, seen, what, phase=0):
                 want = None if md is None else md[k]
                 if mdk is not want and mdk != want:
                     bad("iter", "iter(%s) metadata of %r" % (axis, i))
-            itd = [np.asarray(v).tolist() for v in t.iter_data(axis=axis)]
+            if phase % 2:
+                itd = [np.asarray(v.toarray()).ravel().tolist()
+                       for v in t.iter_data(axis=axis, dense=False)]
+            else:
+                itd = [np.asarray(v).tolist()
+                       for v in t.iter_data(axis=axis)]
             if itd != [vec(k).tolist() for k in range(len(ids))]:
                 bad("iter_data", "iter_data(%s) %r" % (axis, itd))
             if len(ids) <= 4:
-                pairs = list(t.iter_pairwise(axis=axis))
+                # the four documented selections of pairs, rotated
+                tri, diag = [(True, False), (False, True), (True, True),
+                             (False, False)][(phase + len(ids)) % 4]
+                kw = {} if (tri, diag) == (True, False) else \
+                    {"tri": tri, "diag": diag}
+                pairs = list(t.iter_pairwise(axis=axis, **kw))
                 want_pairs = [(a, b) for a in range(len(ids))
-                              for b in range(a + 1, len(ids))]
+                              for b in range(len(ids))
+                              if (a != b or diag) and (b >= a or not tri)]
                 if [(str(p[0][1]), str(p[1][1])) for p in pairs] != \
                         [(ids[a], ids[b]) for a, b in want_pairs]:
                     bad("iter_pairwise", "%s pairs %r" %
